@@ -13,6 +13,7 @@ from mitxgraders.baseclasses import ObjectWithSchema, AbstractGrader, ItemGrader
 from mitxgraders.helpers.calc import evaluator, MathArray
 from mitxgraders.helpers.calc import mathfuncs
 from mitxgraders.sampling import set_seed
+from mitxgraders.comparers import LinearComparer
 
 RULE = ("(seq12/seq20, EXHAUSTIVE) for each item-grader class (String with a validation pattern, Formula, Numerical, "
         "Matrix, Matrix with negative powers disabled, SingleList, Interval) x {answers configured, not} x {debug on, "
@@ -345,6 +346,18 @@ ITEM = {
                                                      'max_array_dim': 2, 'samples': 2},
                      conf=lambda: 'A*[1,2]', E=_E('A*[1,2]', 'A^2', 'A^-1', 'eval'),
                      I=['[5,11]', 'A*A', '[1,3]', 'A^-1*[5,11]', 5]),
+    # partial-credit comparers under a reduced-credit answer: the same submission must earn the same credit on every call
+    # (added after a seeded change let comparer-owned result dictionaries be scaled in place, so that credit decayed
+    # 0.25, 0.125, ... over repeated calls)
+    'FormulaLinear': dict(cls=FormulaGrader, cfg=lambda: {'variables': ['x'], 'sample_from': {'x': [1, 3]}, 'samples': 3,
+                                                           'wrong_msg': 'no'},
+                          conf=lambda: ({'expect': {'comparer': LinearComparer(proportional=0.5, offset=0.4, linear=0.2),
+                                                    'comparer_params': ['x+1']}, 'grade_decimal': 0.5, 'msg': 'lin'},),
+                          E=_E('x+1', '2*x', 'x+', 'eval'), I=['2*x+2', 'x+3', 'x^2', 'x+(', 5]),
+    'MatrixEntry': dict(cls=MatrixGrader, cfg=lambda: {'max_array_dim': 1, 'samples': 2, 'entry_partial_credit': 'proportional',
+                                                        'wrong_msg': 'no'},
+                        conf=lambda: ({'expect': '[1,2,3,4]', 'grade_decimal': 0.5, 'msg': 'm'}, '[3,4,5,6]'),
+                        E=_E('[1,2,3,4]', '[3,4,5,6]', '[1,', 'eval'), I=['[1,2,3,5]', '[3,4,5,7]', '[9,9,9,9]', '[1,2,3', 5]),
     'SingleList': dict(cls=SingleListGrader, cfg=lambda: {'subgrader': StringGrader()}, conf=lambda: ['a', 'b'],
                        E=_E('a,b', 'c,d', 'a,,b', 'infer'), I=['b, a', 'c,d', 'a,c', 'a,,', 5]),
     'Interval': dict(cls=IntervalGrader, cfg=lambda: {}, conf=lambda: '[1,2)',
@@ -980,5 +993,5 @@ def judge_pair(spec, rec):
     return {'first': a, 'then': b, 'probes': len(ref)}
 
 
-PARTS.append(Part('pairs', 'enum', judge_pair, items=items_pairs, exhaustive=True))
+PARTS.append(Part('pairs', 'enum', judge_pair, items=items_pairs, exhaustive=True, prelude=False))
 REQUIRED['pairs/judged'] = 300
